@@ -1719,6 +1719,18 @@ class PSBTOut:
                     self.witness_script.commands.index(sec)
                 except ValueError:
                     raise ValueError(f"pubkey is not in WitnessScript {self}")
+        elif self.redeem_script and self.redeem_script.is_p2wpkh():
+            # p2sh-p2wpkh: the RedeemScript holds the hash160 of the pubkey
+            if len(self.named_pubs) > 1:
+                raise ValueError("too many pubkeys in p2sh-p2wpkh")
+            elif len(self.named_pubs) == 1:
+                named_pub = list(self.named_pubs.values())[0]
+                if self.redeem_script.commands[1] != named_pub.hash160():
+                    raise ValueError(
+                        "pubkey {} does not match the hash160".format(
+                            named_pub.sec().hex()
+                        )
+                    )
         elif self.redeem_script:
             for sec in self.named_pubs.keys():
                 try:
